@@ -20,7 +20,9 @@ EXPLANATION = (
 ASSUMPTIONS = ["semaphore flavours: nsync_mu_semaphore_p/v are stubs with arbitrary effect on the waiter's private state and none on the word, which "
                "over-approximates counting and binary semaphores; deadlines enter only as the arbitrary result of the timed sleep",
                "the waiter queue is abstracted inside word-level proofs (sound over-approximation; exact list behaviour: C17)"]
-NOT_DECIDED = ["that the client only releases what it holds (precondition)"]
+NOT_DECIDED = ["that the client only releases what it holds (precondition)",
+               "nsync_mu_unlock_slow_: callers use its contract; its own body is checked BOUNDED (every loop unwound 4x quick / 6x thorough, arbitrary "
+               "interference, abstract queue) because the unbounded dfcc proof exceeds 48 GB; listed under bounded, not counted as proved"]
 TRUSTED = []
 PARALLEL = 14
 
